@@ -80,30 +80,61 @@ def da_sequences(col, rng, n_seq, length):
         col.add({"sig": "native::da::recurrence", "what": bad, "input": inp} if bad else None)
 
 
+def extreme_step_size_case(col):
+    """the recurrence at the edge of the binary32 range (initial step size 1e37, every proposal accepted): each update IS the recurrence's value in binary32 - also
+    when that value is +inf - and a higher acceptance probability never gives a smaller next step size from the same state"""
+    delta, gamma, kappa, t0 = 0.8, 0.05, 0.75, 10
+    ks = RWKernelState(step_size=1e37)
+    da_init(ks)
+    mu, hbar = np.float32(np.log(np.float32(10.0) * np.float32(1e37))), np.float32(0.0)
+    bad = None
+    with np.errstate(over="ignore"):
+        for t in range(6):
+            lo = RWKernelState(step_size=float(ks.step_size)); lo.__dict__.update(ks.__dict__)
+            hi = RWKernelState(step_size=float(ks.step_size)); hi.__dict__.update(ks.__dict__)
+            da_step(lo, 0.5, t, delta, gamma, kappa, t0)
+            da_step(hi, 1.0, t, delta, gamma, kappa, t0)
+            if float(hi.step_size) < float(lo.step_size):
+                bad = bad or f"t={t}: acceptance 1.0 gives next step size {float(hi.step_size):.4g}, smaller than {float(lo.step_size):.4g} for acceptance 0.5"
+            da_step(ks, 1.0, t, delta, gamma, kappa, t0)
+            hbar = np.float32(hbar + np.float32(delta - 1.0))
+            want = np.exp(np.float32(mu - hbar * np.sqrt(np.float32(t + 1)) / np.float32(gamma * (t0 + t + 1))))
+            got = np.float32(ks.step_size)
+            if not (got == want or (np.isfinite(want) and np.isclose(got, want, rtol=1e-3))):
+                bad = bad or f"t={t}: step size {got:.6g}, the recurrence in binary32 gives {want:.6g}"
+    col.add(None if bad is None else {"sig": "native::da::extreme_step_size", "what": bad, "input": {"initial_step_size": 1e37, "acceptance": 1.0, "delta": delta, "gamma": gamma, "kappa": kappa, "t0": t0}})
+
+
 def kernel_runs(col, rng, tier):
     """every step-size adapting kernel: its tuning state follows the reference given the acceptance
     probabilities it reports, restarts each epoch, finalises, and is frozen in burn-in/posterior."""
     model = gs.DictInterface(lambda s: -0.5 * jnp.sum(s["x"] ** 2) - 0.5 * s["y"] ** 2)
     ms0 = {"x": jnp.array([0.3, -0.2]), "y": jnp.float32(0.1)}
+    # the constants each kernel is CONSTRUCTED with (the reference uses these, not what the kernel reports back); t0 is a real-valued offset (Stan: 10.0)
+    CONST = {"RW": dict(da_target_accept=0.3, da_gamma=0.1, da_kappa=0.8, da_t0=7.25), "IWLS": dict(da_target_accept=0.7, da_gamma=0.07, da_kappa=0.6, da_t0=5),
+             "HMC": dict(da_target_accept=0.75, da_gamma=0.05, da_kappa=0.75, da_t0=2.5), "NUTS": dict(da_target_accept=0.8, da_gamma=0.06, da_kappa=0.9, da_t0=3.5),
+             "MH": dict(da_target_accept=0.4, da_gamma=0.09, da_kappa=0.7, da_t0=4.75)}
     mk = {
-        "RW": lambda: gs.RWKernel(["x"], initial_step_size=0.7, da_target_accept=0.3, da_gamma=0.1, da_kappa=0.8, da_t0=7),
-        "IWLS": lambda: gs.IWLSKernel(["x"], initial_step_size=0.5, da_target_accept=0.7, da_gamma=0.07, da_kappa=0.6, da_t0=5),
-        "HMC": lambda: gs.HMCKernel(["x"], initial_step_size=0.4, num_integration_steps=3, da_target_accept=0.75, da_gamma=0.05, da_kappa=0.75, da_t0=10),
-        "NUTS": lambda: gs.NUTSKernel(["x"], initial_step_size=0.4, max_treedepth=3, da_target_accept=0.8, da_gamma=0.06, da_kappa=0.9, da_t0=3),
+        "RW": lambda: gs.RWKernel(["x"], initial_step_size=0.7, **CONST["RW"]),
+        "IWLS": lambda: gs.IWLSKernel(["x"], initial_step_size=0.5, **CONST["IWLS"]),
+        "HMC": lambda: gs.HMCKernel(["x"], initial_step_size=0.4, num_integration_steps=3, **CONST["HMC"]),
+        "NUTS": lambda: gs.NUTSKernel(["x"], initial_step_size=0.4, max_treedepth=3, **CONST["NUTS"]),
         "MH": lambda: gs.MHKernel(["x"], lambda key, st, step: gs.MHProposal({"x": st["x"] + step * jax.random.normal(key, (2,))}, 0.0),
-                                  initial_step_size=0.6, da_tune_step_size=True, da_target_accept=0.4, da_gamma=0.09, da_kappa=0.7, da_t0=4),
+                                  initial_step_size=0.6, da_tune_step_size=True, **CONST["MH"]),
     }
     n_tr = 6 if tier == "quick" else 25
     for kind, make, reconf in [(kd, mk_, False) for kd, mk_ in mk.items()] + [(kd, mk_, True) for kd, mk_ in mk.items()]:
         k = make()
+        consts = dict(CONST[kind])
         if reconf:  # constants re-configured through the public attributes after construction: "the kernel's constants" are the current ones
-            k.da_target_accept, k.da_gamma, k.da_kappa, k.da_t0 = 0.55, 0.2, 0.65, 2
+            consts = dict(da_target_accept=0.55, da_gamma=0.2, da_kappa=0.65, da_t0=2.5)
+            k.da_target_accept, k.da_gamma, k.da_kappa, k.da_t0 = consts["da_target_accept"], consts["da_gamma"], consts["da_kappa"], consts["da_t0"]
         k.set_model(model)
         key = jax.random.PRNGKey(int(rng.integers(0, 2**31)))
         ks = k.init_state(key, ms0)
         ms = ms0
         trans = jax.jit(k.transition)
-        ref = Ref(float(ks.step_size), k.da_target_accept, k.da_gamma, k.da_kappa, k.da_t0)
+        ref = Ref(float(ks.step_size), consts["da_target_accept"], consts["da_gamma"], consts["da_kappa"], consts["da_t0"])
         bad = None
         tbe = 0
         for ei, (etype, dur) in enumerate([(EpochType.FAST_ADAPTATION, n_tr), (EpochType.SLOW_ADAPTATION, n_tr), (EpochType.BURNIN, 3), (EpochType.POSTERIOR, 3)]):
@@ -222,6 +253,10 @@ def bounded(tier, seed):
     except Exception as e:
         col.add({"sig": f"native::da::exception::{type(e).__name__}", "what": str(e)[:200], "input": {"scenario": "divergent transitions"}})
     try:
+        extreme_step_size_case(col)
+    except Exception as e:
+        col.add({"sig": f"native::da::exception::{type(e).__name__}", "what": str(e)[:200], "input": {"scenario": "step size at the edge of the binary32 range"}})
+    try:
         failed_evaluation_case(col)
     except Exception as e:
         col.add({"sig": f"native::da::exception::{type(e).__name__}", "what": str(e)[:200], "input": {"scenario": "proposals with an undefined log-density"}})
@@ -232,8 +267,8 @@ def bounded(tier, seed):
         "evaluations": col.evals,
         "distinct_nontrivial": col.evals,
         "rule": (f"BOUNDED: real da_init/da_step/da_finalize on {n_seq} seeded (eps0, delta, gamma, kappa, t0, alpha sequence of length {length}) x 2 epochs "
-                 "against a float64 reference of H&G Alg. 5 (relative tolerance 2e-4, float32 code), with a monotonicity probe at every step; "
-                 "the five adapting kernels (RW, IWLS, HMC, NUTS, MH with tuning) driven through FAST/SLOW/BURNIN/POSTERIOR epochs on a Gaussian dict model, once as constructed and once with the da_* attributes re-assigned after construction; NUTS and HMC on a target with a stiff wall (divergent transitions with positive acceptance probability); RW, MH and IWLS on a target that is NaN outside its support (transitions with error code 90 and reported acceptance probability 0). "
+                 "against a float64 reference of H&G Alg. 5 (relative tolerance 2e-4, float32 code), with a monotonicity probe at every step; the recurrence started at 1e37 with acceptance 1 (values beyond the binary32 range: +inf is the recurrence's value); "
+                 "the five adapting kernels (RW, IWLS, HMC, NUTS, MH with tuning) driven through FAST/SLOW/BURNIN/POSTERIOR epochs on a Gaussian dict model, once as constructed (reference fed with the CONSTRUCTOR arguments, non-integer offsets t0 among them) and once with the da_* attributes re-assigned after construction; NUTS and HMC on a target with a stiff wall (divergent transitions with positive acceptance probability); RW, MH and IWLS on a target that is NaN outside its support (transitions with error code 90 and reported acceptance probability 0). "
                  "Each sequence / kernel run is one distinct case."),
         "samples": [{"kernel": "NUTS", "epochs": ["FAST", "SLOW", "BURNIN", "POSTERIOR"]}],
         "exhaustive": False,
